@@ -153,6 +153,9 @@ VARIANTS = [
     V( 'chain-stripped-block', TNET, "source.chain( msg )", "msg			= msg.lstrip( b'\\n' )\n                source.chain( msg )", fires=[ 'P-CHAIN' ] ),
     V( 'chain-stateful-default', TNET, "source = None, # Provide a cpppo.chainable, if desire, to receive into and parse from", "source	= cpppo.chainable(),", fires=[ 'P-CHAIN' ] ),
     V( 'shared-parser-rewired', LOGIX, "def setup_reset():", "def setup_rewire():\n    Logix.parser.initial[True] = None\n\ndef setup_reset():", fires=[ 'R-LOCK-2' ] ),
+    V( 'merge-empty-unguarded', MODBUS, "try:\n base, length = next( input )\n except StopIteration:\n return # no ranges; nothing to merge", "base, length	= next( input )", fires=[ 'M-BANK' ], why='defect O' ),
+    V( 'merge-reach-equivalent', MODBUS, "and address < base + length + ( reach or 1 )):", "and address <= base + length - 1 + ( reach or 1 )):", silent=[ 'M-BANK' ] ),
+    V( 'merge-reach-off-by-one', MODBUS, "and address < base + length + ( reach or 1 )):", "and address <= base + length + ( reach or 1 )):", fires=[ 'M-BANK' ] ),
     # ---- round-2 rules (second half)
     V( 'unpack-unguarded-split', DOT, "ext,_,rest= rest.partition( '.' ) # the closing bracket may be in the last segment\n rest = rest or None", "ext,rest= rest.split( '.', 1 )", fires=[ 'D-UNPACK' ], why='defect N' ),
     V( 'cache-not-invalidated', TIMES, "self.value += rhs\n self._str = None", "self.value	       += rhs", fires=[ 'T-CACHE' ] ),
@@ -277,7 +280,7 @@ VARIANTS = [
     V( 'proceed-list-services-no-return', UCMM, "c_s.service_name = 'Communications'\n\n data.enip.input = bytearray( self.parser.produce( data.enip ))\n\n return True", "c_s.service_name	= 'Communications'\n\n        data.enip.input		= bytearray( self.parser.produce( data.enip ))", fires=[ 'P-PROCEED' ] ),
     V( 'proceed-unregister-subscript', UCMM, "session = self.__class__.sessions.pop( addr, None )", "session	= self.__class__.sessions[addr]", fires=[ 'P-PROCEED' ] ),
     V( 'fresh-sts-hoisted', CLIENT, "for reply in replies:\n val = None\n sts = reply.status # sts = # or (#,[#...])", "sts = None\n            for reply in replies:\n                val		= None", fires=[ 'P-FRESH' ] ),
-    V( 'limit-resolved-once', MODBUS, "base, length = next( input )", "base, length	= next( input )\n    limit		= limit or 123", fires=[ 'M-LIMIT' ] ),
+    V( 'limit-resolved-once', MODBUS, "input = iter( sorted( ranges ))", "input		= iter( sorted( ranges ))\n    limit		= limit or 123", fires=[ 'M-LIMIT' ] ),
     V( 'lock6-terminal-after-with', LOGIX, "for m,s in engine:\n pass\n # for i,(m,s) in enumerate( engine ):\n # log.detail( \"%s #%3d -> %10.10s; next byte %3d: %-10.10r: %s\",\n # machine.name_centered(), i, s, source.sent, source.peek(),\n # repr( data ) if log.getEffectiveLevel() < logging.DETAIL else misc.reprlib.repr( data ))\n if log.isEnabledFor( logging.DETAIL ):\n log.detail( \"EtherNet/IP CIP Request (Client %16s): %s\", addr, enip_format( data.request ))",
        "for m,s in engine:\n                        pass\n            assert machine.terminal\n        if log.isEnabledFor( logging.DETAIL ):\n            log.detail( \"EtherNet/IP CIP Request  (Client %16s): %s\", addr, enip_format( data.request ))", fires=[ 'R-LOCK-6' ] ),
     V( 'resolve-join-always-dot', DOT, "mine = trunc + ( '.' if ( trunc and back ) else '' ) + back", "mine		= trunc + '.' + back", fires=[ 'D-RESOLVE' ] ),
